@@ -1948,6 +1948,7 @@ fn add_new_mapping(state: &mut State, new_key: &KeyCode, m: &Mapping) -> (res: S
     }
   };
         
+  //@ C08 | what is absorbed after the firing: the absorbing list of the fired mapping is absorbed, its final key is the absorbing trigger, earlier absorbed keys were lifted first
   proof {
     assert forall|a: KeyCode| #[trigger] m.absorbing@.contains(a) implies ab_f.contains(a) by { let jj = choose|jj: int| 0 <= jj < m.absorbing@.len() && m.absorbing@[jj] == a; assert(ab_f.contains(m.absorbing@[jj])); }
     assert(c08_anm(*old(state), *state, nk0, *m));
